@@ -45,6 +45,23 @@ def get_use_tree(
     if scope.FQSN in curr_path:
         return use_dict
     new_path = curr_path + [scope.FQSN]
+    # Entities that a PRIVATE module obtains by use association are passed on to
+    # the users of the module only if they are declared PUBLIC there
+    if curr_path and scope.def_vis < 0:
+        prefix = f"{scope.FQSN}::".lower()
+        public = {
+            name.lower()[len(prefix) :]
+            for name in scope.file_ast.public_list
+            if name.lower().startswith(prefix)
+        }
+        if only_list:
+            only_list = {
+                name for name in only_list if rename_map.get(name, name) in public
+            }
+        else:
+            only_list = public
+        if not only_list:
+            return use_dict
     # Add recursively
     for use_stmnt in scope.use:
         # if use_stmnt.mod_name not in obj_tree:
